@@ -1,6 +1,7 @@
 import Pearl.Proofs.MaintLemmas
 import Pearl.Props.C01
 import Pearl.Props.C02
+import Pearl.Proofs.AbstractRefine
 /-
 C04: representation transparency.  Lifecycle and maintenance operations (`closeActive`,
 `createActive`, `restoreActive`, `replaceActive`, `settle`, `restart`; `Op.isMaint`) never change
@@ -329,13 +330,315 @@ example : ¬ ∃ s', Demo.s1.tryCreateActive = .ok s' :=
 example : ∃ s', (Demo.s1.apply .closeActive).restoreActive = .ok s' :=
   (lifecycle_preconditions _).2.2.2 (by decide)
 
+/-! ### the answers are a function of the data operations (refinement of `Pearl/Model/Abstract.lean`)
+
+The abstract specification `Abs` has no blobs: its state is the list of data operations applied so
+far (`dataOps ops`: the writes and deletes of the history `ops`, everything else erased), and
+`Abs.read`, `Abs.contains`, `Abs.readAll`, `Abs.readAllMarked` are functions of that list.
+
+Failing data operations: a `write` / `delete` never fails for want of an active blob in the model
+(`Storage::write` and `delete(only_if_presented = false)` create one), so no `create_active`-style
+precondition is needed; the only refusals are the duplicate check of `write` and the liveness test
+of `delete(only_if_presented = true)`, and the abstract step carries the same guards, evaluated on
+the abstract state.
+-/
+
+/-- all record-level answers of a well-formed storage are read off the visible records of the key -/
+theorem answers_of_vis {s : Store} (hwf : s.WF) {dup : Bool} {a : List DOp} {k : Key}
+    (hv : s.vis k = Abs.view dup a k) :
+    s.readAllMarked k = Abs.readAllMarked dup a k ∧ s.readAll k = Abs.readAll dup a k ∧
+      (∀ mo, s.read k mo = Abs.read dup a k mo) ∧ s.contains k = Abs.contains dup a k := by
+  refine ⟨?_, ?_, fun mo => ?_, ?_⟩
+  · rw [Store.readAllMarked_eq_vis hwf, hv]; rfl
+  · rw [Store.readAll_eq_vis hwf, hv]; rfl
+  · rw [Store.read_eq_vis hwf, hv]; rfl
+  · rw [Store.contains_eq_vis hwf, hv]; rfl
+
+/-- REFINEMENT, all histories, no hypothesis: after every history every answer about key `k` is read off
+    one of the views the *nondeterministic* abstract specification allows for the data operations of
+    the history (`Abs.nviews`: an `only_if_presented` delete either makes its marker the visible one
+    or has no visible effect, see `Abs.oipOutcomes`; everything else is deterministic).  This is all
+    the dependence on blob boundaries there is. -/
+theorem run_refines_abstract (d : Bool) (ops : List Op) (k : Key) :
+    let s := (Store.init d).run ops
+    ∃ v ∈ Abs.nviews d (dataOps ops) k,
+      s.readAllMarked k = v ∧ s.readAll k = v.filter (fun r => !r.del) ∧
+        (∀ mo, s.read k mo = Abs.readOf v mo) ∧ s.contains k = (Abs.latestOf v).map (·.ts) := by
+  intro s
+  have hwf : s.WF := run_WF d ops
+  have := Store.vis_run_nviews k ops [[]] (init_WF d) (by rw [Store.vis_init]; simp)
+  rw [Store.allowDup_init] at this
+  exact ⟨s.vis k, this, Store.readAllMarked_eq_vis hwf k, Store.readAll_eq_vis hwf k,
+    fun mo => Store.read_eq_vis hwf k mo, Store.contains_eq_vis hwf k⟩
+
+/-- the deterministic specification `Abs.view` always is one of the allowed views -/
+theorem abstract_view_allowed (d : Bool) (ops : List Op) (k : Key) :
+    Abs.view d (dataOps ops) k ∈ Abs.nviews d (dataOps ops) k :=
+  Abs.view_mem_nviews d _ k
+
+/-- REFINEMENT, histories without maintenance: after every history of data operations every answer
+    is the one the abstract specification computes (no hypothesis on the operations: refused
+    duplicates, `only_if_presented` deletes of dead or absent keys, … are all covered) -/
+theorem run_data_refines_abstract (d : Bool) (ops : List Op) (hdata : ∀ op ∈ ops, op.isData = true)
+    (k : Key) :
+    let s := (Store.init d).run ops
+    s.readAllMarked k = Abs.readAllMarked d (dataOps ops) k ∧
+      s.readAll k = Abs.readAll d (dataOps ops) k ∧
+      (∀ mo, s.read k mo = Abs.read d (dataOps ops) k mo) ∧
+      s.contains k = Abs.contains d (dataOps ops) k := by
+  intro s
+  refine answers_of_vis (run_WF d ops) ?_
+  have := Store.vis_run_data k ops (init_WF d) (Store.closed_init d) hdata
+  rw [Store.vis_init, Store.allowDup_init] at this
+  exact this
+
+/-- REFINEMENT, histories with maintenance (`…_partial`: the unrestricted statement is false, see
+    `run_refines_abstract_false`): after every history – data operations interleaved with
+    `closeActive`, `createActive`, `restoreActive`, `replaceActive`, `settle`, `restart` in any way –
+    all of whose `only_if_presented` deletes of key `k` are safe (`Abs.safeK`, a condition on the data
+    operations only), every answer about `k` is the one the abstract specification computes from the
+    data operations of the history -/
+theorem run_refines_abstract_partial (d : Bool) (ops : List Op) (k : Key)
+    (hs : Abs.safeK d k (dataOps ops) = true) :
+    let s := (Store.init d).run ops
+    s.readAllMarked k = Abs.readAllMarked d (dataOps ops) k ∧
+      s.readAll k = Abs.readAll d (dataOps ops) k ∧
+      (∀ mo, s.read k mo = Abs.read d (dataOps ops) k mo) ∧
+      s.contains k = Abs.contains d (dataOps ops) k := by
+  intro s
+  refine answers_of_vis (run_WF d ops) ?_
+  have := Store.vis_run_safe k ops (init_WF d)
+    (by rw [Store.vis_init, Store.allowDup_init]; exact hs)
+  rw [Store.vis_init, Store.allowDup_init] at this
+  exact this
+
+/-- the same from any well-formed storage `s` (for instance any reachable one): what a further
+    history does to the visible records of `k` is what the abstract steps do to them -/
+theorem run_from_refines_abstract_partial {s : Store} (hwf : s.WF) (ops : List Op) (k : Key)
+    (hs : Abs.safeFrom s.allowDup k (s.vis k) (dataOps ops) = true) :
+    (s.run ops).readAllMarked k = Abs.viewFrom s.allowDup k (s.readAllMarked k) (dataOps ops) := by
+  rw [Store.readAllMarked_eq_vis (Store.run_WF_from hwf ops), Store.readAllMarked_eq_vis hwf]
+  exact Store.vis_run_safe k ops hwf hs
+
+/-- … for all keys at once, under the decidable check `Abs.safeAll` -/
+theorem run_refines_abstract_of_safe (d : Bool) (ops : List Op)
+    (hs : Abs.safeAll d (dataOps ops) = true) (k : Key) :
+    let s := (Store.init d).run ops
+    s.readAllMarked k = Abs.readAllMarked d (dataOps ops) k ∧
+      s.readAll k = Abs.readAll d (dataOps ops) k ∧
+      (∀ mo, s.read k mo = Abs.read d (dataOps ops) k mo) ∧
+      s.contains k = Abs.contains d (dataOps ops) k :=
+  run_refines_abstract_partial d ops k ((Abs.safe_iff d _).2 hs k)
+
+/-- … in particular for every history whose deletes do not use `only_if_presented` -/
+theorem run_refines_abstract_of_noOip (d : Bool) (ops : List Op)
+    (hn : Abs.noOip (dataOps ops) = true) (k : Key) :
+    let s := (Store.init d).run ops
+    s.readAllMarked k = Abs.readAllMarked d (dataOps ops) k ∧
+      s.readAll k = Abs.readAll d (dataOps ops) k ∧
+      (∀ mo, s.read k mo = Abs.read d (dataOps ops) k mo) ∧
+      s.contains k = Abs.contains d (dataOps ops) k :=
+  run_refines_abstract_partial d ops k (Abs.safe_of_noOip d hn k)
+
+/-- `run_answers_depend_on_data_ops_only`, the true part: under the safety condition the answers after
+    a history are those after the same history with all maintenance operations erased -/
+theorem run_answers_depend_on_data_ops_only_partial (d : Bool) (ops : List Op) (k : Key)
+    (hs : Abs.safeK d k (dataOps ops) = true) :
+    let s := (Store.init d).run ops
+    let s' := (Store.init d).run (ops.filter Op.isData)
+    s.readAllMarked k = s'.readAllMarked k ∧ s.readAll k = s'.readAll k ∧
+      (∀ mo, s.read k mo = s'.read k mo) ∧ s.contains k = s'.contains k := by
+  intro s s'
+  obtain ⟨h1, h2, h3, h4⟩ := run_refines_abstract_partial d ops k hs
+  obtain ⟨g1, g2, g3, g4⟩ := run_data_refines_abstract d (ops.filter Op.isData)
+    (fun op hop => (List.mem_filter.1 hop).2) k
+  rw [dataOps_filter_isData] at g1 g2 g3 g4
+  exact ⟨h1.trans g1.symm, h2.trans g2.symm, fun mo => (h3 mo).trans (g3 mo).symm, h4.trans g4.symm⟩
+
+theorem run_answers_depend_on_data_ops_only_of_noOip (d : Bool) (ops : List Op)
+    (hn : Abs.noOip (dataOps ops) = true) (k : Key) :
+    let s := (Store.init d).run ops
+    let s' := (Store.init d).run (ops.filter Op.isData)
+    s.readAllMarked k = s'.readAllMarked k ∧ s.readAll k = s'.readAll k ∧
+      (∀ mo, s.read k mo = s'.read k mo) ∧ s.contains k = s'.contains k :=
+  run_answers_depend_on_data_ops_only_partial d ops k (Abs.safe_of_noOip d hn k)
+
+/-- where (and which) maintenance operations are interleaved does not matter: two histories with the
+    same data operations, safe for `k`, answer alike -/
+theorem run_answers_eq_of_same_data_ops (d : Bool) (ops₁ ops₂ : List Op) (k : Key)
+    (hsame : dataOps ops₁ = dataOps ops₂) (hs : Abs.safeK d k (dataOps ops₁) = true) :
+    let s₁ := (Store.init d).run ops₁
+    let s₂ := (Store.init d).run ops₂
+    s₁.readAllMarked k = s₂.readAllMarked k ∧ s₁.readAll k = s₂.readAll k ∧
+      (∀ mo, s₁.read k mo = s₂.read k mo) ∧ s₁.contains k = s₂.contains k := by
+  intro s₁ s₂
+  obtain ⟨h1, h2, h3, h4⟩ := run_refines_abstract_partial d ops₁ k hs
+  obtain ⟨g1, g2, g3, g4⟩ := run_refines_abstract_partial d ops₂ k (by rw [← hsame]; exact hs)
+  rw [← hsame] at g1 g2 g3 g4
+  exact ⟨h1.trans g1.symm, h2.trans g2.symm, fun mo => (h3 mo).trans (g3 mo).symm, h4.trans g4.symm⟩
+
+/-! #### what is false: `only_if_presented` deletes that are not safe make blob boundaries observable
+
+`Blob::delete(.., only_if_presented = true)` tests liveness in *that blob*.  Below, key 1 is deleted
+at ts 10 and written again at ts 5: it is dead (`Deleted(10)`).  If the blob was rotated in between,
+the record of ts 5 is the only record of its blob, the key is live there, and a later
+`delete(1, ts 12, only_if_presented)` – which by the documentation of `only_if_presented` should do
+nothing – stores a marker of ts 12 that outranks everything.  `read` then answers `Deleted(12)`
+instead of `Deleted(10)`, and a subsequent write at ts 11 is invisible instead of `Found`. -/
+
+/-- the history with one rotation … -/
+def Demo.opsRot : List Op :=
+  [.delete 1 10 none false, .replaceActive, .write 1 5 none ⟨1, 1⟩, .delete 1 12 none true]
+
+/-- … and a continuation -/
+def Demo.opsRot' : List Op := Demo.opsRot ++ [.write 1 11 none ⟨2, 2⟩]
+
+theorem answers_depend_on_interleaved_maintenance :
+    -- `read` / `contains`: the timestamp of the deletion differs
+    ((Store.init true).run Demo.opsRot).read 1 none = .deleted 12 ∧
+      ((Store.init true).run (Demo.opsRot.filter Op.isData)).read 1 none = .deleted 10 ∧
+      ((Store.init true).run Demo.opsRot).contains 1 = .deleted 12 ∧
+      ((Store.init true).run (Demo.opsRot.filter Op.isData)).contains 1 = .deleted 10 ∧
+      -- one more write: `Deleted` against `Found`, nothing against one record
+      ((Store.init true).run Demo.opsRot').read 1 none = .deleted 12 ∧
+      ((Store.init true).run (Demo.opsRot'.filter Op.isData)).read 1 none =
+        .found ⟨1, 11, false, none, ⟨2, 2⟩⟩ ∧
+      ((Store.init true).run Demo.opsRot').readAll 1 = [] ∧
+      ((Store.init true).run (Demo.opsRot'.filter Op.isData)).readAll 1 =
+        [⟨1, 11, false, none, ⟨2, 2⟩⟩] ∧
+      -- the abstract specification sides with the history without maintenance
+      Abs.read true (dataOps Demo.opsRot') 1 none = .found ⟨1, 11, false, none, ⟨2, 2⟩⟩ ∧
+      -- and the delete is reported as not safe
+      Abs.safeK true 1 (dataOps Demo.opsRot) = false := by
+  decide
+
+/-- `run_answers_depend_on_data_ops_only` as originally worded is false (also with duplicates
+    disallowed) -/
+theorem run_answers_depend_on_data_ops_only_false :
+    ¬ ∀ (d : Bool) (ops : List Op) (k : Key),
+      ((Store.init d).run ops).read k none =
+        ((Store.init d).run (ops.filter Op.isData)).read k none := by
+  intro h
+  exact absurd (h false Demo.opsRot 1) (by decide)
+
+/-- and so is the refinement without the safety hypothesis -/
+theorem run_refines_abstract_false :
+    ¬ ∀ (d : Bool) (ops : List Op) (k : Key),
+      ((Store.init d).run ops).read k none = Abs.read d (dataOps ops) k none := by
+  intro h
+  exact absurd (h false Demo.opsRot 1) (by decide)
+
+/-- a second way: the key is live, the visible marker and the new one have the same timestamp but
+    different metadata.  Which of the two `read_all_with_deletion_marker` returns depends on the blob
+    boundaries; `read`, `read_with`, `contains`, `read_all` do not see the difference. -/
+theorem marker_meta_depends_on_interleaved_maintenance :
+    let ops : List Op := [.write 1 20 none ⟨1, 1⟩, .replaceActive,
+      .delete 1 10 (some (some [1])) false, .delete 1 10 (some (some [2])) true]
+    let s := (Store.init true).run ops
+    let s' := (Store.init true).run (ops.filter Op.isData)
+    s.readAllMarked 1 = [⟨1, 20, false, none, ⟨1, 1⟩⟩, ⟨1, 10, true, some [1], ⟨0, 0⟩⟩] ∧
+      s'.readAllMarked 1 = [⟨1, 20, false, none, ⟨1, 1⟩⟩, ⟨1, 10, true, some [2], ⟨0, 0⟩⟩] ∧
+      s.readAll 1 = s'.readAll 1 ∧ s.read 1 none = s'.read 1 none ∧ s.contains 1 = s'.contains 1 ∧
+      Abs.safeK true 1 (dataOps ops) = false := by
+  decide
+
+/-! #### non-vacuity of the refinement -/
+
+/-- key 1 written, the blob rotated, key 1 written again (newer), the blob closed, key 1 deleted
+    `only_if_presented` at a timestamp between the two writes – the marker goes into *both* closed
+    blobs, there is no active one –, a restart, another key, two more rotations, an unconditional
+    delete (the marker goes into the active blob and into the closed blob 1, where the key is live),
+    a write at the timestamp of that marker, and a write that is refused as a duplicate -/
+def Demo.opsAbs : List Op :=
+  [.write 1 5 none ⟨1, 1⟩, .replaceActive, .write 1 7 (some (some [3])) ⟨2, 2⟩, .closeActive,
+   .delete 1 6 none true, .restart false, .write 2 1 none ⟨3, 3⟩, .settle, .replaceActive,
+   .delete 1 9 none false, .write 1 9 none ⟨4, 4⟩, .write 1 8 none ⟨5, 5⟩]
+
+-- the hypothesis holds (for key 1, and for all keys) …
+example : Abs.safeK false 1 (dataOps Demo.opsAbs) = true := by decide
+example : Abs.Safe false (dataOps Demo.opsAbs) := (Abs.safe_iff _ _).2 (by decide)
+-- … the storage really has several blobs, and the `only_if_presented` delete marked two of them …
+example : ((Store.init false).run Demo.opsAbs).recordsCountDetailed = [2, 4, 2] := by decide
+example : (((Store.init false).run (Demo.opsAbs.take 4)).delete 1 6 none true).2 = 2 := by decide
+-- … the abstract state is the seven data operations …
+example : (dataOps Demo.opsAbs).length = 7 := by decide
+-- … and the answers are not trivial: after the marker of ts 6 only the write of ts 7 is visible,
+example : Abs.readAllMarked false (dataOps (Demo.opsAbs.take 5)) 1 =
+    [⟨1, 7, false, some [3], ⟨2, 2⟩⟩, ⟨1, 6, true, none, ⟨0, 0⟩⟩] := by decide
+example : ((Store.init false).run (Demo.opsAbs.take 5)).readAllMarked 1 =
+    [⟨1, 7, false, some [3], ⟨2, 2⟩⟩, ⟨1, 6, true, none, ⟨0, 0⟩⟩] := by
+  rw [(run_refines_abstract_partial false (Demo.opsAbs.take 5) 1 (by decide)).1]; decide
+-- at the end: written at ts 9 after the delete of ts 9; the write of ts 8 was refused (duplicate)
+example : ((Store.init false).run Demo.opsAbs).read 1 none = .found ⟨1, 9, false, none, ⟨4, 4⟩⟩ := by
+  rw [(run_refines_abstract_partial false Demo.opsAbs 1 (by decide)).2.2.1]; decide
+example : ((Store.init false).run Demo.opsAbs).read 1 (some (some [3])) = .deleted 9 := by
+  rw [(run_refines_abstract_partial false Demo.opsAbs 1 (by decide)).2.2.1]; decide
+example : ((Store.init false).run Demo.opsAbs).readAll 1 = [⟨1, 9, false, none, ⟨4, 4⟩⟩] := by
+  rw [(run_refines_abstract_partial false Demo.opsAbs 1 (by decide)).2.1]; decide
+example : ((Store.init false).run Demo.opsAbs).contains 2 = .found 1 := by
+  rw [(run_refines_abstract_of_safe false Demo.opsAbs (by decide) 2).2.2.2]; decide
+-- maintenance erased: same answers, different storage
+example :
+    ((Store.init false).run Demo.opsAbs).readAllMarked 1 =
+      ((Store.init false).run (Demo.opsAbs.filter Op.isData)).readAllMarked 1 :=
+  (run_answers_depend_on_data_ops_only_partial false Demo.opsAbs 1 (by decide)).1
+example : ((Store.init false).run (Demo.opsAbs.filter Op.isData)).recordsCountDetailed = [6] ∧
+    ((Store.init false).run Demo.opsAbs).recordsCount = 8 := by decide
+-- the duplicate guard of the abstract step is exercised (`allow_duplicates = false`: the second
+-- write of an existing key/meta is refused, concretely and abstractly) …
+example : Abs.readAllMarked false (dataOps [.write 1 5 none ⟨1, 1⟩, .closeActive, .write 1 6 none ⟨2, 2⟩]) 1
+    = [⟨1, 5, false, none, ⟨1, 1⟩⟩] := by decide
+-- … and so is the `only_if_presented` guard on a history without maintenance (not safe, but covered)
+example : Abs.safeK true 1 (dataOps (Demo.opsRot.filter Op.isData)) = false := by decide
+example : ((Store.init true).run (Demo.opsRot.filter Op.isData)).read 1 none = .deleted 10 := by
+  rw [(run_data_refines_abstract true _ (by decide) 1).2.2.1]; decide
+-- the nondeterministic specification: both outcomes of the `only_if_presented` delete of `opsRot`
+-- are allowed (and both occur, see `answers_depend_on_interleaved_maintenance`); a safe history
+-- has a single allowed view
+example : Abs.nviews true (dataOps Demo.opsRot) 1 =
+    [[⟨1, 12, true, none, ⟨0, 0⟩⟩], [⟨1, 10, true, none, ⟨0, 0⟩⟩]] := by decide
+example : Abs.nviews false (dataOps Demo.opsAbs) 1 =
+    [[⟨1, 9, false, none, ⟨4, 4⟩⟩, ⟨1, 9, true, none, ⟨0, 0⟩⟩]] := by decide
+example : ∃ v ∈ Abs.nviews true (dataOps Demo.opsRot) 1,
+    ((Store.init true).run Demo.opsRot).read 1 none = Abs.readOf v none :=
+  let ⟨v, hv, _, _, h, _⟩ := run_refines_abstract true Demo.opsRot 1
+  ⟨v, hv, h none⟩
+-- the declarative reading of the abstract specification: one log, sorted and cut
+example : Abs.log false (dataOps Demo.opsAbs) =
+    [⟨1, 5, false, none, ⟨1, 1⟩⟩, ⟨1, 7, false, some [3], ⟨2, 2⟩⟩, ⟨1, 6, true, none, ⟨0, 0⟩⟩,
+     ⟨2, 1, false, none, ⟨3, 3⟩⟩, ⟨1, 9, true, none, ⟨0, 0⟩⟩, ⟨1, 9, false, none, ⟨4, 4⟩⟩] := by
+  decide
+example : Abs.view false (dataOps Demo.opsAbs) 1 =
+    [⟨1, 9, false, none, ⟨4, 4⟩⟩, ⟨1, 9, true, none, ⟨0, 0⟩⟩] := by
+  rw [Abs.view_eq_visOfLog]; decide
+
 /-
-NOT YET PROVED (not stated): `run_answers_depend_on_data_ops_only` — that the answers after a run
-are those after the run with all maintenance operations erased.  At the level of `Spec.all` it is
-false as blob ids and positions differ, and for counts it is false
-(`counts_depend_on_interleaved_maintenance`); for the record-level answers it needs an abstraction
-of the history that forgets blob boundaries, which this file does not build.  The "after every
-history" forms proved here are `run_maint_answers`, `run_maint_counts` and `run_maints_answers`.
+STATUS of `run_answers_depend_on_data_ops_only` (the answers after a run are those after the run
+with all maintenance operations erased):
+
+  * FALSE as worded: `run_answers_depend_on_data_ops_only_false`,
+    `answers_depend_on_interleaved_maintenance` (`read` / `contains` / `read_all` differ, even
+    `Found` against `Deleted`), `marker_meta_depends_on_interleaved_maintenance` (only
+    `read_all_with_deletion_marker` differs), next to `counts_depend_on_interleaved_maintenance`.
+    The cause is `delete(only_if_presented = true)`, whose liveness test is per blob.
+  * PROVED for all histories, without hypothesis: `run_refines_abstract` – the answers are read off one
+    of the views of the nondeterministic blob-free specification (`Abs.nviews`), in which an
+    `only_if_presented` delete has at most two outcomes.
+  * PROVED for every history whose `only_if_presented` deletes are safe (`Abs.safeK`, decidable, on
+    the data operations only; all histories without `only_if_presented`):
+    `run_answers_depend_on_data_ops_only_partial`, `…_of_noOip`, `run_answers_eq_of_same_data_ops`,
+    as corollaries of the refinement theorems `run_refines_abstract_partial` (with maintenance) and
+    `run_data_refines_abstract` (without maintenance, unconditional) against the blob-free
+    specification `Pearl/Model/Abstract.lean`.
+
+NOT PROVED, and not true: that `Abs.safeK` is the weakest such condition on the data operations.  It is
+sufficient, and the witnesses above show it cannot simply be dropped, but e.g. the data operations
+`[delete 1 5 none false, delete 1 7 none true]` violate it although no blob can ever hold key 1 live
+(there is no write), so no interleaving of maintenance changes an answer.  Likewise `Abs.nviews`
+over-approximates: it allows the marker of an `only_if_presented` delete of a dead key to become
+visible whenever the key has a visible record, without tracking whether some hidden record can be
+live in a blob of its own.  A tight condition needs that extra state in the abstract specification.
+Record counts are not part of the abstract specification (they do depend on blob boundaries).
 -/
 
 end Pearl
